@@ -8,8 +8,7 @@ rc=0
 cd spec
 for f in *.tla trace/*.tla; do
   [ -f "$f" ] || continue
-  # modules of checks that are still being built (not claimed in MANIFEST.json) do not gate the setup
-  case "$f" in Fault*|trace/Fault*) continue;; esac
+
   out=$(java -cp /opt/veriftools/tla/tla2tools.jar:/opt/veriftools/tla/CommunityModules-deps.jar -DTLA-Library=.:trace tla2sany.SANY "$f" 2>&1)
   if echo "$out" | grep -q -i "error\|abort"; then echo "SANY failed on $f"; echo "$out" | tail -20; rc=2; fi
 done
